@@ -25,6 +25,9 @@ func VerifC02Converge() {
 		pool[i] = w.addMessage(a, imap.UID(i+1), fl...)
 	}
 	pool[n] = w.addMessage(b, 1) // a message that can be copied into A later
+	if fam == 4 {
+		pool = append(pool, w.addMessage(b, 2)) // a second one: somebody else's addition and O's own can be in flight together
+	}
 
 	obs := w.newState(1)
 	act := w.newState(2)
@@ -38,7 +41,7 @@ func VerifC02Converge() {
 	plain := context.Background()
 
 	inA := func(i int) bool { return a.Row(pool[i].InternalID) != nil }
-	kinds := [][]int{{0, 1, 2, 3, 4, 5}, {0, 1, 4, 5}, {2, 3, 4, 5}, {0, 1, 2, 4, 5}}[fam]
+	kinds := [][]int{{0, 1, 2, 3, 4, 5}, {0, 1, 4, 5}, {2, 3, 4, 5}, {0, 1, 2, 4, 5}, {0, 6, 4, 5}}[fam]
 	for step := 0; step < k; step++ {
 		switch kinds[vsymChoice("event", len(kinds))] {
 		case 0: // X (or the connector) puts a message into A
@@ -126,6 +129,17 @@ func VerifC02Converge() {
 			})
 			vsymAssert(err == nil, "connector flag update succeeds")
 			vsymCover("connector-flag")
+		case 6: // O itself puts a message into A (its own COPY / MOVE into the selected mailbox): applied to its view at once
+			i := vsymChoice("ownAddWhich", len(pool))
+			if inA(i) {
+				vsymAssume(false)
+			}
+			err := stateDBWrite(ctxFor(obs), obs, func(ctx context.Context, tx db.Transaction) ([]Update, error) {
+				updates, _, err := obs.actionAddMessagesToMailbox(ctx, tx, []db.MessageIDPair{pool[i]}, mboxA, true)
+				return updates, err
+			})
+			vsymAssert(err == nil, "the observer's own COPY succeeds")
+			vsymCover("own-add")
 		case 4: // the next pending update reaches O
 			if len(w.user.pending[0]) == 0 {
 				vsymAssume(false)
